@@ -60,6 +60,8 @@ MCArgs(name, h, dep) ==
     [] OTHER -> {}
 
 BreaksQ == <<R(0), R(1), R(3), R(4)>>
+Breaks5 == <<R(0), R(1), Q(3, 2), R(3), R(4)>>            \* three interior break points
+Breaks6 == <<R(0), Q(1, 2), R(1), Q(3, 2), R(3), R(4)>>   \* four
 BreaksT == <<R(-2), R(-1), R(0), R(2)>>
 DegsQ == 0..2
 DegsT == 0..3
